@@ -126,8 +126,12 @@ func checkPhrase(phrase string, family string) {
 
 func main() {
 	tier := flag.String("tier", "", "quick|thorough")
+	replay := flag.String("replay", "", "replay file: report only the violation it records")
 	flag.Parse()
 	r = ev.New("C20", *tier, "exploration")
+	if *replay != "" {
+		r.SetReplay(*replay)
+	}
 	words = wallet.VerifWordList()
 	if sum := sha256.Sum256([]byte(strings.Join(words, "\n") + "\n")); hex.EncodeToString(sum[:]) != wordListSHA256 || len(words) != 2048 {
 		r.Violate("c20:wordlist", fmt.Sprintf("word list is not BIP-39 english (sha256 %x, %d words)", sum, len(words)), nil)
